@@ -45,7 +45,8 @@ def shape_blog(cfg):
             a=sa.Column(sa.Integer),
             article_id=sa.Column(sa.Integer, sa.ForeignKey('article.id')),
             article=sa.orm.relationship(Article, backref='tags'),
-            **vopts()))
+            **vopts({'end_transaction_column_name': 'valid_to', 'transaction_column_name': 'txid'}
+                    if cfg.get('class_names') else None)))
         Label = type('Label', (Base,), dict(
             __tablename__='label',
             id=sa.Column(sa.Integer, primary_key=True, autoincrement=False),
@@ -80,6 +81,8 @@ def shape_comp(cfg):
             id2=sa.Column(sa.Integer, primary_key=True, autoincrement=False),
             a=sa.Column(sa.Integer), b=sa.Column(sa.Integer), **v))
         v2 = {'__versioned__': dict(opts)} if opts is not None else {}
+        if opts is not None and cfg.get('class_names'):
+            v2['__versioned__'].update({'end_transaction_column_name': 'valid_to', 'transaction_column_name': 'txid'})
         Doc = type('Doc', (Base,), dict(
             __tablename__='doc',
             id=sa.Column(sa.Unicode(20), primary_key=True),
